@@ -813,6 +813,46 @@ class PyListCell(Cell):
       c.items = list(reversed(c.items))
       ctx.set_cell(ref.addr, c)
       return None
+    if name == 'pop':
+      self.check_write(ctx, ref, 'pop')
+      i = args[0] if args else -1
+      if is_z3(i):
+        raise Unsupported('pop at a symbolic index')
+      if not self.items or not -len(self.items) <= i < len(self.items):
+        ctx.oblige('index.pop', False, kind='definedness', detail='IndexError: pop from empty list / index out of range')
+        raise PathDead()
+      c = self.clone()
+      v = c.items.pop(i)
+      ctx.set_cell(ref.addr, c)
+      return v
+    if name == 'insert':
+      self.check_write(ctx, ref, 'insert')
+      if is_z3(args[0]):
+        raise Unsupported('insert at a symbolic index')
+      c = self.clone()
+      c.items.insert(args[0], args[1])
+      ctx.set_cell(ref.addr, c)
+      return None
+    if name == 'sort':
+      self.check_write(ctx, ref, 'sort')
+      key = kwargs.get('key')
+      rev = kwargs.get('reverse', False)
+      ks = []
+      for it in self.items:
+        k = ctx.engine.call_value(ctx, key, [it], {}) if key is not None else it
+        if is_z3(k):
+          k = z3.simplify(k)
+          if not z3.is_int_value(k):
+            raise Unsupported('sort with symbolic keys')
+          k = k.as_long()
+        ks.append(k)
+      if is_z3(rev):
+        raise Unsupported('sort with a symbolic reverse flag')
+      c = self.clone()
+      order = sorted(range(len(ks)), key=lambda i: ks[i], reverse=bool(rev))   # stable, like list.sort
+      c.items = [self.items[i] for i in order]
+      ctx.set_cell(ref.addr, c)
+      return None
     raise Unsupported(f'pylist.{name}')
 
   def iterate(self, ctx, ref):
